@@ -259,8 +259,9 @@ Builtin and c-extension modules that are allowed to be imported and inspected by
         """Set the value of `key` preference to `value`."""
         if key in self.callbacks:
             self.callbacks[key](value)
-        else:
-            setattr(self, key, value)
+        # the value is kept as well, so that what `get()` and `add()` see is
+        # what the callback was given
+        setattr(self, key, value)
 
     def add(self, key: str, value: Any):
         """Add an entry to a list preference
@@ -268,9 +269,9 @@ Builtin and c-extension modules that are allowed to be imported and inspected by
         Add `value` to the list of entries for the `key` preference.
 
         """
-        if getattr(self, key) is None:
-            self[key] = []
-        getattr(self, key).append(value)
+        values = list(getattr(self, key) or [])
+        values.append(value)
+        self.set(key, values)
 
     def get(self, key: str, default: Any = None):
         """Get the value of the key preference"""
